@@ -349,10 +349,13 @@ class C20(Check):
         body = b''.join(i.to_bytes(8, 'little') + rng.rbytes(16) + rng.rbytes(8) for i in ids)
         count = rng.pick([n, n, max(n - 1, 0), n + 1, n + 3])
         img = count.to_bytes(4, 'little') + rng.rbytes(12) + body[:rng.pick([len(body), len(body), max(len(body) - 5, 0)])]
-        sd.load_seeddb(io.BytesIO(img))
-        out = io.BytesIO()
-        sd.save_seeddb(out)
-        real = 'ok ' + ','.join(f'{k}:{v.hex() or "-"}' for k, v in sd.get_all_seeds().items()) + ' ' + out.getvalue().hex()
+        try:
+            sd.load_seeddb(io.BytesIO(img))
+            out = io.BytesIO()
+            sd.save_seeddb(out)
+            real = 'ok ' + ','.join(f'{k}:{v.hex() or "-"}' for k, v in sd.get_all_seeds().items()) + ' ' + out.getvalue().hex()
+        except Exception as e:      # noqa
+            real = 'e:' + exc_name(e)
         sd._seeds.clear()
         return real, drv.ask(sexp(['seeddb', img])), []
 
